@@ -795,6 +795,8 @@ theorem splitEq_key (k v : Bytes) (hk : eq ∉ k) : splitEq (k ++ eq :: v) = (k,
 /-- the three spellings `k=v`, `-k=v`, `--k=v` -/
 def Dashes (d : Bytes) : Prop := d = [] ∨ d = [45] ∨ d = [45, 45]
 
+instance (d : Bytes) : Decidable (Dashes d) := by unfold Dashes; infer_instance
+
 theorem named_split (d k v : Bytes) (hd : Dashes d) (hk : eq ∉ k) (h45 : k.head? ≠ some 45) :
     splitEq (trimDash (trimDash (d ++ k ++ eq :: v))) = (k, v) := by
   have hnd : trimDash (k ++ eq :: v) = k ++ eq :: v := by
